@@ -119,6 +119,13 @@ pub fn parse_wmo_with_metadata<R: Read + Seek>(reader: &mut R) -> Result<ParseRe
         ))
     })?;
 
+    // Every WMO root or group file starts with its version chunk
+    if discovery.chunks.first().map(|c| c.id.as_str()) != Some("MVER") {
+        return Err(WmoError::InvalidFormat(
+            "File does not start with an MVER chunk: not a WMO file".to_string(),
+        ));
+    }
+
     // Clone discovery for return
     let discovery_clone = discovery.clone();
 
